@@ -1,6 +1,10 @@
 (** * C16 (float tier): the error bounds returned by the [*_with_error] / [*_propagate_error]
     functions of transform.rs, over every Flocq binary format with at least 8 bits of precision.
-    Statements are in Properties/C16.v. *)
+    Statements are in Properties/C16.v.
+    The code as it is now: points report gamma(4) * [mul4x4_abs] (four roundings, the translation entry is added by the
+    evaluation), vectors gamma(3) * [mul3x3_abs] (three roundings, no translation entry: [rabs4 a b c 0] below), the
+    incoming error of the [*_propagate_error] functions goes through [mul3x3_abs] * (1 + gamma(3)).
+    The former texts are in Model/Pinned.v and are refuted at the end of this file. *)
 From Coq Require Import ZArith Reals Bool Lra Lia Psatz.
 From Flocq Require Import Core BinarySingleNaN Relative Plus_error.
 From G3 Require Import Model.Num Model.Base Model.Vec Model.Transform Model.Pinned Proofs.C07_interval.
@@ -246,6 +250,9 @@ Definition V0 : V3 R := mkV3 0 0 0.
 (** the first-order worst case of the property: rounding of the evaluation (gamma3 times the sum of the absolute
     terms of the row) plus the input error carried through the LINEAR part *)
 Definition first_order (g : R) (m : M4 R) (x e : V3 R) : V3 R := lin2 g (vaddR (abs_img m x) (abs_trans m)) 1 (abs_img m e).
+(** the same for a VECTOR: its image m00 x + m01 y + m02 z does not involve the translation column, hence neither
+    does its first-order worst case: three products, two additions *)
+Definition first_order_vec (g : R) (m : M4 R) (x e : V3 R) : V3 R := lin2 g (abs_img m x) 1 (abs_img m e).
 
 (** ** Rounding facts in the form used here, for any binary format *)
 Section C16_float.
@@ -579,7 +586,9 @@ Section C16_float.
     pose proof (Rabs_pos t). lra.
   Qed.
 
-  (** *** (S), vectors: the reported error bounds the rounding error of the row -- no extra factor *)
+  (** *** (S), vectors: the reported error bounds the rounding error of the row -- no extra factor.
+      Used with [t = 0] (the vector functions report [rabs4 a b c 0 = rabs3 a b c], no translation entry): the proof
+      only uses [rabs3 <= rabs4], so nothing leans on [t]. *)
   Lemma vec_real : forall a b c t g, safe a -> safe b -> safe c -> format t -> gok g ->
     Rabs (rrow3 a b c - (a + b + c)) <= RN (rabs4 a b c t * g).
   Proof.
@@ -635,8 +644,6 @@ Section C16_float.
   Definition rerr1 (pa pb pc t g : R) : R := RN (rabs4 pa pb pc t * rG g).
   (** [g] multiplies the propagated part (through [1+g]), [g2] the rounding part *)
   Definition rerr (a b c pa pb pc t1 t g g2 : R) : R := RN (rerr1 pa pb pc t1 g + RN (rabs4 a b c t * g2)).
-  Lemma rabs4_t0 : forall a b c, rabs4 a b c 0 = rabs3 a b c.
-  Proof. intros. unfold rabs4. rewrite Rabs_R0, Rplus_0_r. apply RN_id. apply format_RN. Qed.
   Lemma rabs4_cases : forall a b c t, safe a -> safe b -> safe c -> format t ->
     (a = 0 /\ b = 0 /\ c = 0) \/ tiny <= rabs4 a b c t.
   Proof.
@@ -868,6 +875,37 @@ Section C16_float.
     split. split. exact G2. exact W2'. split. exact G3. unfold frow4. fold (frow3 m0 m1 m2 x y z). rewrite W3, W2'. reflexivity.
   Qed.
 
+  (** the same for the translation-free row of [mul3x3_abs] (what the vector functions report) *)
+  Definition fabs3 (m0 m1 m2 x y z : bf) : bf := nabs (m0 * x) + nabs (m1 * y) + nabs (m2 * z).
+  Lemma rabs4_t0 : forall a b c, rabs4 a b c 0 = rabs3 a b c.
+  Proof. intros. unfold rabs4. rewrite Rabs_R0, Rplus_0_r. apply RN_id. apply format_RN. Qed.
+  Lemma rows3_ok : forall m0 m1 m2 x y z : bf, fin (fabs3 m0 m1 m2 x y z) ->
+    let a := (B2R m0 * B2R x)%R in let b := (B2R m1 * B2R y)%R in let c := (B2R m2 * B2R z)%R in
+    (fin m0 /\ fin m1 /\ fin m2 /\ fin x /\ fin y /\ fin z) /\
+    B2R (fabs3 m0 m1 m2 x y z) = rabs4 a b c 0 /\
+    (fin (frow3 m0 m1 m2 x y z) /\ B2R (frow3 m0 m1 m2 x y z) = rrow3 a b c).
+  Proof.
+    intros m0 m1 m2 x y z H a b c. unfold fabs3 in H.
+    destruct (add_inv _ _ H) as (F2 & FC & V2). destruct (abs_inv _ FC) as (Fc & VC).
+    destruct (add_inv _ _ F2) as (FA & FB & V1).
+    destruct (abs_inv _ FA) as (Fa & VA). destruct (abs_inv _ FB) as (Fb & VB).
+    destruct (mul_inv _ _ Fa) as (Fm0 & Fx & Va). destruct (mul_inv _ _ Fb) as (Fm1 & Fy & Vb).
+    destruct (mul_inv _ _ Fc) as (Fm2 & Fz & Vc).
+    fold a in Va. fold b in Vb. fold c in Vc.
+    assert (E1 : B2R (nabs (m0 * x) + nabs (m1 * y)) = RN (Rabs (RN a) + Rabs (RN b))%R) by (rewrite V1, VA, VB, Va, Vb; reflexivity).
+    assert (E2 : B2R (fabs3 m0 m1 m2 x y z) = rabs3 a b c) by (unfold fabs3; rewrite V2, E1, VC, Vc; reflexivity).
+    split. tauto. split. rewrite rabs4_t0. exact E2.
+    assert (L1 : (Rabs (RN (RN a + RN b)) <= RN (Rabs (RN a) + Rabs (RN b)))%R) by (apply abs_RN_sum_le; lra).
+    assert (L2 : (Rabs (rrow3 a b c) <= rabs3 a b c)%R) by (apply abs_RN_sum_le; [exact L1 | lra]).
+    destruct (add_fwd (m0 * x) (m1 * y) Fa Fb) as (G1 & W1).
+    { rewrite Va, Vb. apply Rle_lt_trans with (1 := L1). rewrite <- E1.
+      apply Rle_lt_trans with (1 := RRle_abs _). apply fin_lt. }
+    destruct (add_fwd (m0 * x + m1 * y) (m2 * z) G1 Fc) as (G2 & W2).
+    { rewrite W1, Va, Vb, Vc. apply Rle_lt_trans with (1 := L2). rewrite <- E2.
+      apply Rle_lt_trans with (1 := RRle_abs _). apply fin_lt. }
+    split. exact G2. unfold frow3. rewrite W2, W1, Va, Vb, Vc. reflexivity.
+  Qed.
+
   (** exact small integers and [EPSILON] *)
   Lemma Bnorm_exact : forall mx ex : Z, format (F2R (Float radix2 mx ex)) ->
     (Rabs (F2R (Float radix2 mx ex)) < bpow radix2 emax)%R ->
@@ -1078,18 +1116,10 @@ Section C16_float.
   Lemma safe_0 : safe 0.
   Proof. left. reflexivity. Qed.
 
-  (** the translation-free propagated part ([mul3x3_abs]) *)
-  Definition fabs3 (m0 m1 m2 x y z : bf) : bf := nabs (m0 * x) + nabs (m1 * y) + nabs (m2 * z).
+  (** the translation-free part ([mul3x3_abs]): the propagated input error, and the whole error of a vector *)
   Lemma fabs3_ok : forall m0 m1 m2 x y z : bf, fin (fabs3 m0 m1 m2 x y z) ->
     B2R (fabs3 m0 m1 m2 x y z) = rabs4 (B2R m0 * B2R x) (B2R m1 * B2R y) (B2R m2 * B2R z) 0.
-  Proof.
-    intros m0 m1 m2 x y z H. unfold fabs3 in *. rewrite rabs4_t0.
-    destruct (add_inv _ _ H) as (F2 & FC & V2). destruct (abs_inv _ FC) as (Fc & VC).
-    destruct (add_inv _ _ F2) as (FA & FB & V1).
-    destruct (abs_inv _ FA) as (Fa & VA). destruct (abs_inv _ FB) as (Fb & VB).
-    destruct (mul_inv _ _ Fa) as (_ & _ & Va). destruct (mul_inv _ _ Fb) as (_ & _ & Vb). destruct (mul_inv _ _ Fc) as (_ & _ & Vc).
-    rewrite V2, V1, VA, VB, VC, Va, Vb, Vc. reflexivity.
-  Qed.
+  Proof. intros m0 m1 m2 x y z H. exact (proj1 (proj2 (rows3_ok m0 m1 m2 x y z H))). Qed.
   Section Comp.
     Variables m0 m1 m2 m3 x y z : bf.
     Let a := (B2R m0 * B2R x)%R.
@@ -1098,17 +1128,18 @@ Section C16_float.
     Let t := B2R m3.
     Let g3 := B2R (@ngamma bf NB16 3).
     Let g4 := B2R (@ngamma bf NB16 4).
-    (** what a vector / a point function reports for this row *)
-    Let errv : bf := fabs4 m0 m1 m2 m3 x y z * ngamma 3.
+    (** what a vector / a point function reports for this row: the vector functions leave the translation entry
+        [m3] out ([mul3x3_abs]: three products, two additions), the point functions add it ([mul4x4_abs]) *)
+    Let errv : bf := fabs3 m0 m1 m2 x y z * ngamma 3.
     Let errp : bf := fabs4 m0 m1 m2 m3 x y z * ngamma 4.
     Hypothesis Sa : safe a.
     Hypothesis Sb : safe b.
     Hypothesis Sc : safe c.
 
-    Lemma comp_errv : fin errv -> fin (fabs4 m0 m1 m2 m3 x y z) /\ B2R errv = RN (rabs4 a b c t * g3)%R.
+    Lemma comp_errv : fin errv -> fin (fabs3 m0 m1 m2 x y z) /\ B2R errv = RN (rabs4 a b c 0 * g3)%R.
     Proof.
       intros H. destruct (mul_inv _ _ H) as (F & _ & V). split. exact F.
-      destruct (rows_ok m0 m1 m2 m3 x y z F) as (_ & E & _). unfold errv. rewrite V, E. reflexivity.
+      destruct (rows3_ok m0 m1 m2 x y z F) as (_ & E & _). unfold errv. rewrite V, E. reflexivity.
     Qed.
     Lemma comp_errp : fin errp -> fin (fabs4 m0 m1 m2 m3 x y z) /\ B2R errp = RN (rabs4 a b c t * g4)%R.
     Proof.
@@ -1119,8 +1150,8 @@ Section C16_float.
       fin (frow3 m0 m1 m2 x y z) /\ (Rabs (B2R (frow3 m0 m1 m2 x y z) - (a + b + c)) <= B2R errv)%R.
     Proof.
       intros H. destruct (comp_errv H) as (F & V).
-      destruct (rows_ok m0 m1 m2 m3 x y z F) as (_ & _ & (F3 & V3) & _). split. exact F3.
-      rewrite V, V3. apply vec_real; try assumption. apply format_B2R. apply ngamma3_gok.
+      destruct (rows3_ok m0 m1 m2 x y z F) as (_ & _ & (F3 & V3)). split. exact F3.
+      rewrite V, V3. apply vec_real; try assumption. apply format_0. apply ngamma3_gok.
     Qed.
     Lemma comp_pt : fin errp ->
       fin (frow4 m0 m1 m2 m3 x y z) /\
@@ -1135,14 +1166,16 @@ Section C16_float.
       pose proof uro_range as Hu.
       assert ((1 + uro) ^ 6 <= (1 + /256) ^ 6)%R by (apply pow_incr; lra). lra.
     Qed.
-    Lemma comp_M_vec : safe t -> fin errv ->
-      (B2R errv <= 2 * (gamma3 * (Rabs a + Rabs b + Rabs c + Rabs t)))%R.
+    (** (M) for a vector row: no translation term on the right-hand side, no hypothesis on [m3] *)
+    Lemma comp_M_vec : fin errv ->
+      (B2R errv <= 2 * (gamma3 * (Rabs a + Rabs b + Rabs c)))%R.
     Proof.
-      intros St H. destruct (comp_errv H) as (F & V). rewrite V.
-      apply Rle_trans with (1 := E_upper a b c t g3 Sa Sb Sc St (format_B2R _) ngamma3_gok).
+      intros H. destruct (comp_errv H) as (F & V). rewrite V.
+      apply Rle_trans with (1 := E_upper a b c 0 g3 Sa Sb Sc safe_0 format_0 ngamma3_gok).
+      rewrite Rabs_R0, Rplus_0_r.
       pose proof uro_range as Hu. pose proof gamma3_pos. pose proof pow6_le2.
-      assert (0 <= gamma3 * (Rabs a + Rabs b + Rabs c + Rabs t))%R.
-      { apply Rmult_le_pos. lra. pose proof (Rabs_pos a). pose proof (Rabs_pos b). pose proof (Rabs_pos c). pose proof (Rabs_pos t). lra. }
+      assert (0 <= gamma3 * (Rabs a + Rabs b + Rabs c))%R.
+      { apply Rmult_le_pos. lra. pose proof (Rabs_pos a). pose proof (Rabs_pos b). pose proof (Rabs_pos c). lra. }
       apply Rmult_le_compat_r. assumption. assert (0 <= (1 + uro) ^ 6)%R by (apply pow_le; lra). lra.
     Qed.
     (** gamma(4) is 4/3 of the yardstick gamma(3): still within the factor 2 *)
@@ -1173,7 +1206,7 @@ Section C16_float.
     Hypothesis Spc : safe pc.
     Let perrv : bf := fabs3 m0 m1 m2 ex ey ez * (n1 + ngamma 3) + errv.
     Let perrp : bf := fabs3 m0 m1 m2 ex ey ez * (n1 + ngamma 3) + errp.
-    Lemma comp_perrv : fin perrv -> fin errv /\ B2R perrv = rerr a b c pa pb pc 0 t g3 g3.
+    Lemma comp_perrv : fin perrv -> fin errv /\ B2R perrv = rerr a b c pa pb pc 0 0 g3 g3.
     Proof.
       intros H. destruct (add_inv _ _ H) as (F1 & F2 & V). split. exact F2.
       destruct (comp_errv F2) as (_ & V2). destruct (mul_inv _ _ F1) as (Fe & _ & V1).
@@ -1192,8 +1225,8 @@ Section C16_float.
       (Rabs (B2R (frow3 m0 m1 m2 x y z) - (a + b + c + d)) <= (1 + 4 * uro) * B2R perrv)%R.
     Proof.
       intros H d Hd. destruct (comp_perrv H) as (F2 & V). destruct (comp_errv F2) as (F & _).
-      destruct (rows_ok m0 m1 m2 m3 x y z F) as (_ & _ & (F3 & V3) & _). split. exact F3.
-      rewrite V, V3. apply vec_box_real; try assumption; try apply format_B2R. apply format_0. apply ngamma3_gok.
+      destruct (rows3_ok m0 m1 m2 x y z F) as (_ & _ & (F3 & V3)). split. exact F3.
+      rewrite V, V3. apply vec_box_real; try assumption; try apply format_0. apply ngamma3_gok.
     Qed.
     Lemma comp_pt_box : fin perrp -> forall d : R, (Rabs d <= Rabs pa + Rabs pb + Rabs pc)%R ->
       fin (frow4 m0 m1 m2 m3 x y z) /\
@@ -1204,15 +1237,15 @@ Section C16_float.
       rewrite V, V4. apply pt_box_real; try assumption; try apply format_B2R. apply format_0. apply ngamma3_gok. apply ngamma4_gok.
     Qed.
     (** (M): within a factor 2 of the first-order worst case, whatever the translation *)
-    Lemma M_final : forall gm2 E2 : R, (0 <= gm2)%R -> (gm2 <= 135 / 100 * gamma3)%R ->
-      let PP := (Rabs pa + Rabs pb + Rabs pc)%R in let QQ := (Rabs a + Rabs b + Rabs c + Rabs t)%R in
+    Lemma M_final : forall gm2 E2 T : R, (0 <= gm2)%R -> (gm2 <= 135 / 100 * gamma3)%R ->
+      let PP := (Rabs pa + Rabs pb + Rabs pc)%R in let QQ := (Rabs a + Rabs b + Rabs c + Rabs T)%R in
       (E2 <= (1 + 9 * uro) * ((1 + gamma3) * (PP + Rabs 0) + gm2 * QQ) ->
        E2 <= 2 * (gamma3 * QQ + 1 * PP))%R.
     Proof.
-      intros gm2 E2 Hg0 Hg PP QQ H. apply Rle_trans with (1 := H).
+      intros gm2 E2 T Hg0 Hg PP QQ H. apply Rle_trans with (1 := H).
       rewrite Rabs_R0, Rplus_0_r. pose proof uro_range as Hu. pose proof gamma3_pos. pose proof gamma3_small.
       assert (P : (0 <= PP)%R) by (unfold PP; pose proof (Rabs_pos pa); pose proof (Rabs_pos pb); pose proof (Rabs_pos pc); lra).
-      assert (Q : (0 <= QQ)%R) by (unfold QQ; pose proof (Rabs_pos a); pose proof (Rabs_pos b); pose proof (Rabs_pos c); pose proof (Rabs_pos t); lra).
+      assert (Q : (0 <= QQ)%R) by (unfold QQ; pose proof (Rabs_pos a); pose proof (Rabs_pos b); pose proof (Rabs_pos c); pose proof (Rabs_pos T); lra).
       assert (C1 : ((1 + 9 * uro) * (1 + gamma3) <= 2)%R) by nra.
       assert (K1 : ((1 + 9 * uro) * ((1 + gamma3) * PP) <= 2 * PP)%R).
       { replace ((1 + 9 * uro) * ((1 + gamma3) * PP))%R with (((1 + 9 * uro) * (1 + gamma3)) * PP)%R by ring.
@@ -1227,20 +1260,22 @@ Section C16_float.
         apply Rmult_le_compat_r; lra. }
       lra.
     Qed.
-    Lemma comp_M_perrv : safe t -> fin perrv ->
-      (B2R perrv <= 2 * (gamma3 * (Rabs a + Rabs b + Rabs c + Rabs t) + 1 * (Rabs pa + Rabs pb + Rabs pc)))%R.
+    (** vectors: the translation entry appears nowhere, neither in the code nor in the yardstick *)
+    Lemma comp_M_perrv : fin perrv ->
+      (B2R perrv <= 2 * (gamma3 * (Rabs a + Rabs b + Rabs c) + 1 * (Rabs pa + Rabs pb + Rabs pc)))%R.
     Proof.
-      intros St H. destruct (comp_perrv H) as (F2 & V). rewrite V. pose proof gamma3_pos.
+      intros H. destruct (comp_perrv H) as (F2 & V). rewrite V. pose proof gamma3_pos.
+      replace (Rabs a + Rabs b + Rabs c)%R with (Rabs a + Rabs b + Rabs c + Rabs 0)%R by (rewrite Rabs_R0; ring).
       apply (M_final gamma3). lra. lra.
       apply err_upper; try assumption. apply safe_0. apply format_0. apply ngamma3_gok. lra.
       apply E_pos. apply ngamma3_gok.
-      exact (E_upper a b c t g3 Sa Sb Sc St (format_B2R _) ngamma3_gok).
+      exact (E_upper a b c 0 g3 Sa Sb Sc safe_0 format_0 ngamma3_gok).
     Qed.
     Lemma comp_M_perrp : safe t -> fin perrp ->
       (B2R perrp <= 2 * (gamma3 * (Rabs a + Rabs b + Rabs c + Rabs t) + 1 * (Rabs pa + Rabs pb + Rabs pc)))%R.
     Proof.
       intros St H. destruct (comp_perrp H) as (F2 & V). rewrite V. pose proof gamma4_pos.
-      apply (M_final gamma4). lra. apply gamma4_le.
+      apply (M_final gamma4 _ t). lra. apply gamma4_le.
       apply err_upper; try assumption. apply safe_0. apply format_0. apply ngamma3_gok. lra.
       apply E_pos4. apply ngamma4_gok.
       exact (E4_le St).
@@ -1296,7 +1331,7 @@ Section C16_float.
 
   Lemma vec_we_eq : forall m v, vec_with_error m v =
     (mkV3 (row3 m 0 v) (row3 m 1 v) (row3 m 2 v),
-     mkV3 (rowa m 0 v * ngamma 3) (rowa m 1 v * ngamma 3) (rowa m 2 v * ngamma 3)).
+     mkV3 (rowl m 0 v * ngamma 3) (rowl m 1 v * ngamma 3) (rowl m 2 v * ngamma 3)).
   Proof. reflexivity. Qed.
   Lemma pt_we_eq : forall m p, pt_with_error m p =
     (mkV3 (row4 m 0 p / row4 m 3 p) (row4 m 1 p / row4 m 3 p) (row4 m 2 p / row4 m 3 p),
@@ -1304,8 +1339,8 @@ Section C16_float.
   Proof. reflexivity. Qed.
   Lemma vec_pe_eq : forall m v e, vec_propagate_error m v e =
     (mkV3 (row3 m 0 v) (row3 m 1 v) (row3 m 2 v),
-     mkV3 (rowl m 0 e * (n1 + ngamma 3) + rowa m 0 v * ngamma 3) (rowl m 1 e * (n1 + ngamma 3) + rowa m 1 v * ngamma 3)
-          (rowl m 2 e * (n1 + ngamma 3) + rowa m 2 v * ngamma 3)).
+     mkV3 (rowl m 0 e * (n1 + ngamma 3) + rowl m 0 v * ngamma 3) (rowl m 1 e * (n1 + ngamma 3) + rowl m 1 v * ngamma 3)
+          (rowl m 2 e * (n1 + ngamma 3) + rowl m 2 v * ngamma 3)).
   Proof. reflexivity. Qed.
   Lemma pt_pe_eq : forall m p e, pt_propagate_error m p e =
     (mkV3 (row4 m 0 p / row4 m 3 p) (row4 m 1 p / row4 m 3 p) (row4 m 2 p / row4 m 3 p),
@@ -1313,7 +1348,7 @@ Section C16_float.
           (rowl m 2 e * (n1 + ngamma 3) + rowa m 2 p * ngamma 4)).
   Proof. reflexivity. Qed.
 
-  Ltac expose := unfold first_order; unfold fin3, safe_prods, safe_trans, within, inbox, vle, lin2, vaddR, vscaleR, V0, img_vec, img_pt, abs_img, abs_trans,
+  Ltac expose := unfold first_order, first_order_vec; unfold fin3, safe_prods, safe_trans, within, inbox, vle, lin2, vaddR, vscaleR, V0, img_vec, img_pt, abs_img, abs_trans,
     B2V, B2M, row3, row4, rowa, rowl, ent;
     cbn [fst snd vx vy vz m00 m01 m02 m03 m10 m11 m12 m13 m20 m21 m22 m23 m30 m31 m32 m33].
 
@@ -1332,9 +1367,9 @@ Section C16_float.
   Proof.
     intros m v re. unfold re. rewrite vec_we_eq. expose.
     intros (Hx & Hy & Hz) ((a1 & a2 & a3) & (b1 & b2 & b3) & (c1 & c2 & c3)).
-    destruct (comp_vec (m00 m) (m01 m) (m02 m) (m03 m) (vx v) (vy v) (vz v) a1 a2 a3 Hx) as (Fx & Ex).
-    destruct (comp_vec (m10 m) (m11 m) (m12 m) (m13 m) (vx v) (vy v) (vz v) b1 b2 b3 Hy) as (Fy & Ey).
-    destruct (comp_vec (m20 m) (m21 m) (m22 m) (m23 m) (vx v) (vy v) (vz v) c1 c2 c3 Hz) as (Fz & Ez).
+    destruct (comp_vec (m00 m) (m01 m) (m02 m) (vx v) (vy v) (vz v) a1 a2 a3 Hx) as (Fx & Ex).
+    destruct (comp_vec (m10 m) (m11 m) (m12 m) (vx v) (vy v) (vz v) b1 b2 b3 Hy) as (Fy & Ey).
+    destruct (comp_vec (m20 m) (m21 m) (m22 m) (vx v) (vy v) (vz v) c1 c2 c3 Hz) as (Fz & Ez).
     rewrite !Rmult_1_l. tauto.
   Qed.
 
@@ -1347,9 +1382,9 @@ Section C16_float.
   Proof.
     intros m v e re. unfold re. rewrite vec_pe_eq. expose.
     intros (Hx & Hy & Hz) ((a1 & a2 & a3) & (b1 & b2 & b3) & (c1 & c2 & c3)) ((p1 & p2 & p3) & (q1 & q2 & q3) & (r1 & r2 & r3)).
-    pose proof (fun d => comp_vec_box (m00 m) (m01 m) (m02 m) (m03 m) (vx v) (vy v) (vz v) a1 a2 a3 (vx e) (vy e) (vz e) p1 p2 p3 Hx d) as Cx.
-    pose proof (fun d => comp_vec_box (m10 m) (m11 m) (m12 m) (m13 m) (vx v) (vy v) (vz v) b1 b2 b3 (vx e) (vy e) (vz e) q1 q2 q3 Hy d) as Cy.
-    pose proof (fun d => comp_vec_box (m20 m) (m21 m) (m22 m) (m23 m) (vx v) (vy v) (vz v) c1 c2 c3 (vx e) (vy e) (vz e) r1 r2 r3 Hz d) as Cz.
+    pose proof (fun d => comp_vec_box (m00 m) (m01 m) (m02 m) (vx v) (vy v) (vz v) a1 a2 a3 (vx e) (vy e) (vz e) p1 p2 p3 Hx d) as Cx.
+    pose proof (fun d => comp_vec_box (m10 m) (m11 m) (m12 m) (vx v) (vy v) (vz v) b1 b2 b3 (vx e) (vy e) (vz e) q1 q2 q3 Hy d) as Cy.
+    pose proof (fun d => comp_vec_box (m20 m) (m21 m) (m22 m) (vx v) (vy v) (vz v) c1 c2 c3 (vx e) (vy e) (vz e) r1 r2 r3 Hz d) as Cz.
     split.
     - destruct (Cx 0%R) as (F1 & _). rewrite Rabs_R0. repeat apply Rplus_le_le_0_compat; apply Rabs_pos.
       destruct (Cy 0%R) as (F2 & _). rewrite Rabs_R0. repeat apply Rplus_le_le_0_compat; apply Rabs_pos.
@@ -1425,44 +1460,64 @@ Section C16_float.
       match goal with |- (Rabs (_ - ?I) <= _)%R => match type of E with (Rabs (_ - ?J) <= _)%R => replace I with J by ring end end. exact E.
   Qed.
 
-  (** *** (M), the four [*_with_error] functions: within a factor 2 of gamma3 (sum |m_ij x_j| + |m_i3|) *)
+  (** *** (M), the two point [*_with_error] functions: within a factor 2 of gamma3 (sum |m_ij x_j| + |m_i3|) --
+      a point's image does add the translation entry, so its rounding is part of the first-order worst case *)
   Theorem M_with_error : forall (m : M4 bf) (p : V3 bf), safe_prods (B2M m) (B2V p) -> safe_trans (B2M m) ->
-    (fin3 (snd (pt_with_error m p)) -> vle (B2V (snd (pt_with_error m p))) (vscaleR 2 (first_order gamma3 (B2M m) (B2V p) V0))) /\
-    (fin3 (snd (vec_with_error m p)) -> vle (B2V (snd (vec_with_error m p))) (vscaleR 2 (first_order gamma3 (B2M m) (B2V p) V0))).
+    fin3 (snd (pt_with_error m p)) -> vle (B2V (snd (pt_with_error m p))) (vscaleR 2 (first_order gamma3 (B2M m) (B2V p) V0)).
   Proof.
-    intros m p. rewrite pt_we_eq, vec_we_eq. expose.
+    intros m p. rewrite pt_we_eq. expose.
     intros ((a1 & a2 & a3) & (b1 & b2 & b3) & (c1 & c2 & c3)) (t1 & t2 & t3).
-    rewrite !Rmult_0_r, Rabs_R0, !Rmult_1_l, !Rplus_0_r. split; intros (Hx & Hy & Hz).
-    - pose proof (comp_M_pt (m00 m) (m01 m) (m02 m) (m03 m) (vx p) (vy p) (vz p) a1 a2 a3 t1 Hx).
-      pose proof (comp_M_pt (m10 m) (m11 m) (m12 m) (m13 m) (vx p) (vy p) (vz p) b1 b2 b3 t2 Hy).
-      pose proof (comp_M_pt (m20 m) (m21 m) (m22 m) (m23 m) (vx p) (vy p) (vz p) c1 c2 c3 t3 Hz).
-      repeat split; lra.
-    - pose proof (comp_M_vec (m00 m) (m01 m) (m02 m) (m03 m) (vx p) (vy p) (vz p) a1 a2 a3 t1 Hx).
-      pose proof (comp_M_vec (m10 m) (m11 m) (m12 m) (m13 m) (vx p) (vy p) (vz p) b1 b2 b3 t2 Hy).
-      pose proof (comp_M_vec (m20 m) (m21 m) (m22 m) (m23 m) (vx p) (vy p) (vz p) c1 c2 c3 t3 Hz).
-      repeat split; lra.
+    rewrite !Rmult_0_r, Rabs_R0, !Rmult_1_l, !Rplus_0_r. intros (Hx & Hy & Hz).
+    pose proof (comp_M_pt (m00 m) (m01 m) (m02 m) (m03 m) (vx p) (vy p) (vz p) a1 a2 a3 t1 Hx).
+    pose proof (comp_M_pt (m10 m) (m11 m) (m12 m) (m13 m) (vx p) (vy p) (vz p) b1 b2 b3 t2 Hy).
+    pose proof (comp_M_pt (m20 m) (m21 m) (m22 m) (m23 m) (vx p) (vy p) (vz p) c1 c2 c3 t3 Hz).
+    repeat split; lra.
   Qed.
 
-  (** *** (M), the four [*_propagate_error] functions: within a factor 2 of the first-order worst case,
+  (** *** (M), the two vector [*_with_error] functions: within a factor 2 of gamma3 sum |m_ij v_j| -- NO translation
+      term on the right, NO hypothesis on the translation entries: whatever the size of the translation *)
+  Theorem M_vec_with_error : forall (m : M4 bf) (v : V3 bf), safe_prods (B2M m) (B2V v) ->
+    fin3 (snd (vec_with_error m v)) ->
+    vle (B2V (snd (vec_with_error m v))) (vscaleR 2 (vscaleR gamma3 (abs_img (B2M m) (B2V v)))).
+  Proof.
+    intros m v. rewrite vec_we_eq. expose.
+    intros ((a1 & a2 & a3) & (b1 & b2 & b3) & (c1 & c2 & c3)) (Hx & Hy & Hz).
+    pose proof (comp_M_vec (m00 m) (m01 m) (m02 m) (vx v) (vy v) (vz v) a1 a2 a3 Hx).
+    pose proof (comp_M_vec (m10 m) (m11 m) (m12 m) (vx v) (vy v) (vz v) b1 b2 b3 Hy).
+    pose proof (comp_M_vec (m20 m) (m21 m) (m22 m) (vx v) (vy v) (vz v) c1 c2 c3 Hz).
+    repeat split; lra.
+  Qed.
+
+  (** *** (M), the two point [*_propagate_error] functions: within a factor 2 of the first-order worst case,
       WHATEVER the translation (the incoming error no longer meets the translation column) *)
   Theorem M_propagate : forall (m : M4 bf) (p e : V3 bf),
     safe_prods (B2M m) (B2V p) -> safe_prods (B2M m) (B2V e) -> safe_trans (B2M m) ->
-    (fin3 (snd (pt_propagate_error m p e)) ->
-     vle (B2V (snd (pt_propagate_error m p e))) (vscaleR 2 (first_order gamma3 (B2M m) (B2V p) (B2V e)))) /\
-    (fin3 (snd (vec_propagate_error m p e)) ->
-     vle (B2V (snd (vec_propagate_error m p e))) (vscaleR 2 (first_order gamma3 (B2M m) (B2V p) (B2V e)))).
+    fin3 (snd (pt_propagate_error m p e)) ->
+    vle (B2V (snd (pt_propagate_error m p e))) (vscaleR 2 (first_order gamma3 (B2M m) (B2V p) (B2V e))).
   Proof.
-    intros m p e. rewrite pt_pe_eq, vec_pe_eq. expose.
+    intros m p e. rewrite pt_pe_eq. expose.
     intros ((a1 & a2 & a3) & (b1 & b2 & b3) & (c1 & c2 & c3)) ((p1 & p2 & p3) & (q1 & q2 & q3) & (r1 & r2 & r3)) (t1 & t2 & t3).
-    split; intros (Hx & Hy & Hz).
-    - pose proof (comp_M_perrp (m00 m) (m01 m) (m02 m) (m03 m) (vx p) (vy p) (vz p) a1 a2 a3 (vx e) (vy e) (vz e) p1 p2 p3 t1 Hx).
-      pose proof (comp_M_perrp (m10 m) (m11 m) (m12 m) (m13 m) (vx p) (vy p) (vz p) b1 b2 b3 (vx e) (vy e) (vz e) q1 q2 q3 t2 Hy).
-      pose proof (comp_M_perrp (m20 m) (m21 m) (m22 m) (m23 m) (vx p) (vy p) (vz p) c1 c2 c3 (vx e) (vy e) (vz e) r1 r2 r3 t3 Hz).
-      tauto.
-    - pose proof (comp_M_perrv (m00 m) (m01 m) (m02 m) (m03 m) (vx p) (vy p) (vz p) a1 a2 a3 (vx e) (vy e) (vz e) p1 p2 p3 t1 Hx).
-      pose proof (comp_M_perrv (m10 m) (m11 m) (m12 m) (m13 m) (vx p) (vy p) (vz p) b1 b2 b3 (vx e) (vy e) (vz e) q1 q2 q3 t2 Hy).
-      pose proof (comp_M_perrv (m20 m) (m21 m) (m22 m) (m23 m) (vx p) (vy p) (vz p) c1 c2 c3 (vx e) (vy e) (vz e) r1 r2 r3 t3 Hz).
-      tauto.
+    intros (Hx & Hy & Hz).
+    pose proof (comp_M_perrp (m00 m) (m01 m) (m02 m) (m03 m) (vx p) (vy p) (vz p) a1 a2 a3 (vx e) (vy e) (vz e) p1 p2 p3 t1 Hx).
+    pose proof (comp_M_perrp (m10 m) (m11 m) (m12 m) (m13 m) (vx p) (vy p) (vz p) b1 b2 b3 (vx e) (vy e) (vz e) q1 q2 q3 t2 Hy).
+    pose proof (comp_M_perrp (m20 m) (m21 m) (m22 m) (m23 m) (vx p) (vy p) (vz p) c1 c2 c3 (vx e) (vy e) (vz e) r1 r2 r3 t3 Hz).
+    tauto.
+  Qed.
+
+  (** *** (M), the two vector [*_propagate_error] functions: within a factor 2 of
+      gamma3 sum |m_ij v_j| + sum |m_ij e_j| -- no translation term, no hypothesis on the translation entries *)
+  Theorem M_vec_propagate : forall (m : M4 bf) (v e : V3 bf),
+    safe_prods (B2M m) (B2V v) -> safe_prods (B2M m) (B2V e) ->
+    fin3 (snd (vec_propagate_error m v e)) ->
+    vle (B2V (snd (vec_propagate_error m v e))) (vscaleR 2 (first_order_vec gamma3 (B2M m) (B2V v) (B2V e))).
+  Proof.
+    intros m v e. rewrite vec_pe_eq. expose.
+    intros ((a1 & a2 & a3) & (b1 & b2 & b3) & (c1 & c2 & c3)) ((p1 & p2 & p3) & (q1 & q2 & q3) & (r1 & r2 & r3)).
+    intros (Hx & Hy & Hz).
+    pose proof (comp_M_perrv (m00 m) (m01 m) (m02 m) (vx v) (vy v) (vz v) a1 a2 a3 (vx e) (vy e) (vz e) p1 p2 p3 Hx).
+    pose proof (comp_M_perrv (m10 m) (m11 m) (m12 m) (vx v) (vy v) (vz v) b1 b2 b3 (vx e) (vy e) (vz e) q1 q2 q3 Hy).
+    pose proof (comp_M_perrv (m20 m) (m21 m) (m22 m) (vx v) (vy v) (vz v) c1 c2 c3 (vx e) (vy e) (vz e) r1 r2 r3 Hz).
+    tauto.
   Qed.
 End C16_float.
 
@@ -1673,6 +1728,56 @@ Lemma M_witness_now_meaningful :
   vle (B2V 53 1024 (snd (@pt_propagate_error _ NumB64 wM_m wM_p wS_e)))
       (vscaleR 2 (first_order (gamma3 53) (B2M 53 1024 wM_m) (B2V 53 1024 wM_p) (B2V 53 1024 wS_e))).
 Proof.
-  apply (proj1 (M_propagate 53 1024 Hprec53 Hmax1024 ltac:(lia) wM_m wM_p wS_e wM_safe_p wM_safe_e wM_safe_t)).
+  apply (M_propagate 53 1024 Hprec53 Hmax1024 ltac:(lia) wM_m wM_p wS_e wM_safe_p wM_safe_e wM_safe_t).
   unfold fin3. repeat split; vm_compute; reflexivity.
 Qed.
+
+(** ** the error of a transformed VECTOR before the fix of the vector functions ([vec_with_error_pinned]:
+    [mul4x4_abs], which adds |m_i3|) *)
+(** the vector (1e-9, 0, 0) *)
+Definition wV_v : V3 b64 := mkV3 (fS false 4835703278458517 (-82)) fZ fZ.
+Lemma wV_safe : safe_prods 53 1024 (B2M 53 1024 wM_m) (B2V 53 1024 wV_v).
+Proof.
+  unfold safe_prods, B2M, B2V, wM_m, wV_v.
+  cbn [vx vy vz m00 m01 m02 m03 m10 m11 m12 m13 m20 m21 m22 m23 m30 m31 m32 m33].
+  repeat split; b2r_goal; sf_lit; safe_tac.
+Qed.
+Lemma wV_fin_pinned : fin3 53 1024 (snd (@vec_with_error_pinned _ NumB64 wM_m wV_v)).
+Proof. unfold fin3. repeat split; vm_compute; reflexivity. Qed.
+Lemma wV_fin : fin3 53 1024 (snd (@vec_with_error _ NumB64 wM_m wV_v)).
+Proof. unfold fin3. repeat split; vm_compute; reflexivity. Qed.
+
+(** (M) was FALSE for the vector functions: [translate(1000,0,0)] applied to the vector (1e-9,0,0) -- whose image is
+    the vector itself, computed without a single rounding error -- reported the x error 3.33e-13 = gamma3 * 1000
+    where the first-order worst case gamma3 * |1 * 1e-9| is 3.33e-25: more than 10^11 times (so not within twice),
+    and proportional to the translation, whatever the length of the vector.  All guards hold. *)
+Lemma M_vec_pinned_refuted : exists (m : M4 b64) (v : V3 b64),
+  let err := snd (@vec_with_error_pinned _ NumB64 m v) in
+  let fo := vscaleR (gamma3 53) (abs_img (B2M 53 1024 m) (B2V 53 1024 v)) in
+  affine_last 53 1024 m /\ fin3 53 1024 err /\ safe_prods 53 1024 (B2M 53 1024 m) (B2V 53 1024 v) /\
+  safe_trans 53 1024 (B2M 53 1024 m) /\
+  ~ vle (B2V 53 1024 err) (vscaleR 2 fo) /\
+  100000000000 * vx fo < vx (B2V 53 1024 err).
+Proof.
+  exists wM_m, wV_v. cbv zeta.
+  split. exact wM_affine. split. exact wV_fin_pinned. split. exact wV_safe. split. exact wM_safe_t.
+  assert (K : 100000000000 * vx (vscaleR (gamma3 53) (abs_img (B2M 53 1024 wM_m) (B2V 53 1024 wV_v)))
+              < vx (B2V 53 1024 (snd (@vec_with_error_pinned _ NumB64 wM_m wV_v)))).
+  { unfold vscaleR, abs_img, B2V, B2M. cbn [vx vy vz m00 m01 m02 m03].
+    unfold wM_m at 1 2 3. unfold wV_v at 1 2 3. cbn [vx vy vz m00 m01 m02 m03].
+    rewrite gamma3_53. b2r_goal. sf_lit.
+    repeat match goal with |- context [Rabs ?x] => first [ rewrite (Rabs_pos_eq x) by lra ] end. lra. }
+  split; [|exact K].
+  intros (Hx & _). revert K Hx.
+  generalize (vx (B2V 53 1024 (snd (@vec_with_error_pinned _ NumB64 wM_m wV_v)))).
+  unfold vscaleR. cbn [vx].
+  assert (P : 0 <= gamma3 53 * vx (abs_img (B2M 53 1024 wM_m) (B2V 53 1024 wV_v))).
+  { unfold abs_img. cbn [vx]. pose proof (gamma3_pos 53 ltac:(lia)).
+    apply Rmult_le_pos. lra. repeat apply Rplus_le_le_0_compat; apply Rabs_pos. }
+  intros r K Hx. lra.
+Qed.
+(** the repaired code on the same input (instance of [M_vec_with_error]) *)
+Lemma M_vec_witness_now_meaningful :
+  vle (B2V 53 1024 (snd (@vec_with_error _ NumB64 wM_m wV_v)))
+      (vscaleR 2 (vscaleR (gamma3 53) (abs_img (B2M 53 1024 wM_m) (B2V 53 1024 wV_v)))).
+Proof. exact (M_vec_with_error 53 1024 Hprec53 Hmax1024 ltac:(lia) wM_m wV_v wV_safe wV_fin). Qed.
